@@ -14,9 +14,18 @@ import (
 // depth). It returns the set of origin values reached; a parameter of a function whose callers
 // cannot all be enumerated (used as a value, interface implementation, no callers) is itself an
 // origin.
-func (c *Ctx) origins(v ssa.Value, depth int) []ssa.Value {
+func (c *Ctx) origins(v ssa.Value, depth int) []ssa.Value { return c.originsOpt(v, depth, false) }
+
+// originsThroughHelpers is origins that also follows result i of a module helper into what the helper returns there
+// (two levels), so that a value keeps its origins when the code computing it is extracted into a helper.
+func (c *Ctx) originsThroughHelpers(v ssa.Value, depth int) []ssa.Value {
+	return c.originsOpt(v, depth, true)
+}
+
+func (c *Ctx) originsOpt(v ssa.Value, depth int, throughHelpers bool) []ssa.Value {
 	seen := map[ssa.Value]bool{}
 	var out []ssa.Value
+	down := 0
 	var visit func(v ssa.Value, d int)
 	visit = func(v ssa.Value, d int) {
 		if seen[v] {
@@ -65,6 +74,20 @@ func (c *Ctx) origins(v ssa.Value, depth int) []ssa.Value {
 				}
 				visit(b, d)
 				return
+			}
+		case *ssa.Extract:
+			// result i of a module helper: what the helper returns there (an extracted helper keeps its origins)
+			if call, ok := x.Tuple.(*ssa.Call); ok && throughHelpers && down < 2 {
+				if sc := call.Call.StaticCallee(); sc != nil && c.P.InModule(sc) && len(sc.Blocks) > 0 {
+					down++
+					for _, b := range sc.Blocks {
+						if ret, ok := b.Instrs[len(b.Instrs)-1].(*ssa.Return); ok && x.Index < len(ret.Results) {
+							visit(ret.Results[x.Index], d)
+						}
+					}
+					down--
+					return
+				}
 			}
 		case *ssa.UnOp:
 			if x.Op == token.MUL {
